@@ -7,6 +7,9 @@
 //	E <packet>                   header+body Serialize, LLC in front, packet.Decode
 //	                                                                   => <wire hex> <packet> | Err | PANIC
 //	K <LSP body>                 UpdateLength + SetChecksum            => LSP:...
+//	T <ctor> <args>              a TLV constructor (area, host, proto, ipif, entries, p2padj, pad, terid, extis, extip),
+//	                             the TLV put into an LSP that is serialized and decoded
+//	                                                                   => <tlv> <wire hex> <packet> | Err | PANIC
 //	C <maxlen> <srcid> <entries> packet.NewCSNPs, each PDU serialized and decoded
 //	P <maxlen> <srcid> <entries> packet.NewPSNPs, ditto                => n=<k> (<built body> <decoded packet>)* | PANIC
 //
@@ -27,6 +30,7 @@ import (
 	"strconv"
 	"strings"
 
+	bnet "github.com/bio-routing/bio-rd/net"
 	"github.com/bio-routing/bio-rd/protocols/isis/packet"
 	"github.com/bio-routing/bio-rd/protocols/isis/types"
 
@@ -314,6 +318,108 @@ func runK(l *packet.LSPDU) string {
 	return renderBody(l)
 }
 
+// runT: a TLV constructor. fits = the content needs at most 255 value bytes (computed here, independently)
+func runT(f []string) (obs string, nt bool, v *verdict, err error) {
+	var t packet.TLV
+	fits := true
+	err = tryParse(func() {
+		arg := func(i int) string {
+			if len(f) <= i {
+				fail("T %s: argument %d missing", f[1], i-1)
+			}
+			return f[i]
+		}
+		switch f[1] {
+		case "area":
+			as := parseAreas(arg(2))
+			n := 0
+			for _, a := range as {
+				n += 1 + len(a)
+			}
+			fits = n <= 255
+			t = packet.NewAreaAddressesTLV(as)
+		case "host":
+			b := unhex(arg(2))
+			fits = len(b) <= 255
+			t = packet.NewDynamicHostnameTLV(b)
+		case "proto":
+			b := unhex(arg(2))
+			fits = len(b) <= 255
+			x := packet.NewProtocolsSupportedTLV(b)
+			t = &x
+		case "ipif":
+			pfxs := []*bnet.Prefix{}
+			for _, a := range split(arg(2), "|") {
+				pfxs = append(pfxs, bnet.NewPfx(bnet.IPv4(uint32(num(a, 32))), 32).Ptr())
+			}
+			fits = 4*len(pfxs) <= 255
+			t = packet.NewIPInterfaceAddressesTLV(pfxs)
+		case "entries":
+			es := parseEntries(arg(2))
+			fits = 16*len(es) <= 255
+			t = packet.NewLSPEntriesTLV(es)
+		case "p2padj":
+			t = packet.NewP2PAdjacencyStateTLV(uint8(num(arg(2), 8)), uint32(num(arg(3), 32)))
+		case "pad":
+			t = packet.NewPaddingTLV(uint8(num(arg(2), 8)))
+		case "terid":
+			t = packet.NewTrafficEngineeringRouterIDTLV(uint32(num(arg(2), 32)))
+		case "extis":
+			x := packet.NewExtendedISReachabilityTLV()
+			total := 0
+			for _, n := range split(arg(2), "|") {
+				g := strings.Split(n, ".")
+				need(g, 4, "extis neighbor")
+				nb := packet.NewExtendedISReachabilityNeighbor(srcID(g[0]), uint32(num(g[1], 32)))
+				sub := 0
+				for _, st := range parseSubs(g[3]) {
+					raw := refSub(st)
+					if int(st.Length()) != len(raw)-2 {
+						fits = false
+					}
+					sub += len(raw)
+					nb.AddSubTLV(st)
+				}
+				if sub > 255 {
+					fits = false
+				}
+				total += 11 + sub
+				x.AddNeighbor(nb)
+			}
+			if total > 255 {
+				fits = false
+			}
+			t = x
+		case "extip":
+			x := packet.NewExtendedIPReachabilityTLV()
+			total := 0
+			for _, n := range split(arg(2), "|") {
+				g := strings.Split(n, ".")
+				need(g, 3, "extip reach")
+				pl := uint8(num(g[1], 8))
+				total += 5 + (int(pl&63)+7)/8
+				x.AddExtendedIPReachability(packet.NewExtendedIPReachability(uint32(num(g[0], 32)), pl, uint32(num(g[2], 32))))
+			}
+			fits = total <= 255
+			t = x
+		default:
+			fail("unknown constructor %q", f[1])
+		}
+	})
+	if err != nil {
+		return
+	}
+	p := &pkt{hdr: snpHeader(packet.L2_LS_PDU_TYPE, packet.LSPDUMinLen), body: &packet.LSPDU{TLVs: []packet.TLV{t}}}
+	o, _, pv := runE(p)
+	obs = renderTLV(t) + " " + o
+	if fits && !wfTLV(t) {
+		v = &verdict{"ctor:" + f[1] + ":length-field-wrong", renderTLV(t)[:min(len(renderTLV(t)), 200)]}
+	} else if fits {
+		v = pv
+	}
+	return obs, true, v, nil
+}
+
 func snpHeader(ty uint8, li uint8) packet.ISISHeader {
 	return packet.ISISHeader{ProtoDiscriminator: 0x83, LengthIndicator: li, ProtocolIDExtension: 1, PDUType: ty, Version: 1}
 }
@@ -463,6 +569,17 @@ func (r *runner) do(id, input string) {
 		}
 		obs = runK(l)
 		nt = len(l.TLVs) > 0
+	case "T":
+		if len(f) < 2 {
+			bad(fmt.Errorf("want a constructor name"))
+			return
+		}
+		var err error
+		obs, nt, v, err = runT(f)
+		if err != nil {
+			bad(err)
+			return
+		}
 	case "C", "P":
 		if len(f) != 4 {
 			bad(fmt.Errorf("want 3 arguments"))
